@@ -347,6 +347,12 @@ def analyze(case, impl):
                 hit = node_at(regs[r]["fp"], pth)
                 if content(hit) != content(prev[j]["fp"]):
                     out.append(("C05", "step %d: config r%d embedded at '%s' arrives as %s, it holds %s" % (si, j, ".".join(pth), json.dumps(content(hit))[:200], json.dumps(content(prev[j]["fp"]))[:200]), si))
+        # ---- C05: an existing config and what NewFrom makes of it unpack to the same value (a read marked "sameAsPrev" has
+        # to return what the read before it returned)
+        if kind == "read" and op.get("sameAsPrev") and si > 0 and "read" in st and "read" in steps[si - 1]:
+            a, b = steps[si - 1]["read"], st["read"]
+            if isinstance(a, dict) and isinstance(b, dict) and "ok" in a and "ok" in b and json.dumps(a, sort_keys=True) != json.dumps(b, sort_keys=True):
+                out.append(("C05", "step %d: the config created from r%d unpacks to %s, the config itself to %s" % (si, ops[si - 1].get("r", 0), json.dumps(b)[:200], json.dumps(a)[:200]), si))
         # ---- C15: stored positions describe the structure
         # nodes attached at two positions at once (SetChild of an attached child: known finding D20) are outside the rule,
         # except in the known finding's own witness
@@ -582,15 +588,20 @@ def fix_candidate(cand, base):
             return None
         if o["op"] in ("new", "merge") and not ("from" in o and wellformed_data(o["from"]) and o["from"] is not None):
             return None
-        if o["op"] in ("set", "setchild", "remove", "child", "read") and (not isinstance(o.get("name"), str) or o["name"] == "" or not isinstance(o.get("idx"), int)):
+        whole = o["op"] == "read" and o.get("what") in ("view", "keys")      # reads of the whole config need no name
+        if o["op"] in ("set", "setchild", "remove", "child", "read") and (not isinstance(o.get("name"), str) or (o["name"] == "" and not whole) or not isinstance(o.get("idx"), int)):
             return None
         if o["op"] == "set" and not (isinstance(o.get("val"), dict) and any(k in o["val"] for k in ("s", "i", "u", "b", "f"))):
             return None
-        if any(seg == "" for seg in o.get("name", "x").split(".")):
+        if o.get("name") and any(seg == "" for seg in o.get("name", "x").split(".")):
             return None
         for key in ("to", "child", "r2"):
             if key in o and not isinstance(o[key], int):
                 return None
+    for prev_o, o in zip([None] + cand["ops"], cand["ops"]):
+        # a read compared with the read before it keeps that read
+        if o.get("sameAsPrev") and not (prev_o is not None and prev_o.get("op") == "read" and prev_o.get("what") == "view"):
+            return None
     if not static_ok(cand["ops"], cand.get("regs", NREGS), allow_reattach=bool(cand.get("reattach"))):
         return None
     return cand
